@@ -5,6 +5,7 @@ import ElfiVerif.Drive.C12
 import ElfiVerif.Drive.C06
 import ElfiVerif.Drive.C04
 import ElfiVerif.Drive.C18
+import ElfiVerif.Drive.C09
 
 /-!
 Line-protocol driver: one JSON request per line on stdin (`{"op": "<Cxx.name>", …}`), one JSON answer
@@ -17,7 +18,7 @@ def allHandlers : List (String × H) :=
   ElfiVerif.Drive.C15.handlers ++ ElfiVerif.Drive.C13.handlers ++
   ElfiVerif.Drive.C01.handlers ++ ElfiVerif.Drive.C12.handlers ++
   ElfiVerif.Drive.C06.handlers ++ ElfiVerif.Drive.C04.handlers ++
-  ElfiVerif.Drive.C18.handlers
+  ElfiVerif.Drive.C18.handlers ++ ElfiVerif.Drive.C09.handlers
 
 def handleLine (line : String) : String :=
   match Json.parse line with
